@@ -27,7 +27,7 @@ Lemma bal_insert_rates cm h s a ph s' : insert_rates cm h s a ph = Ok s' -> bal 
 Proof.
   unfold insert_rates. destruct (rates s !! h); [discriminate|].
   destruct (has_dup _); [discriminate|]. destruct (existsb _ _); [discriminate|].
-  match goal with |- (if ?b then _ else _) = _ -> _ => destruct b; [discriminate|] end.
+  repeat match goal with |- (if ?b then _ else _) = _ -> _ => destruct b; [discriminate|] end.
   intros H; inversion H; reflexivity.
 Qed.
 
